@@ -433,6 +433,9 @@ class StmtMixin:
             for k, x in enumerate(v):
                 self.arr_write(st, o, [k], x)
             return o
+        if isinstance(v, (dict, SymDict)) and sortkey(spec) == 'ref' and not (v.items if isinstance(v, SymDict) else v):
+            # an empty dict literal stored in the heap: a fresh mapping object (its later contents are only known through logged stores)
+            return self.new_obj(st, 'dict', name='dict')
         return v
 
     # ------------------------------------------------------------------ control flow
